@@ -90,7 +90,7 @@ m = dict(version=1, setup_cmd="./verify setup",
   engines=[dict(name="coq-maps", path="coq/theories/Model/SymDiff.v", serves_properties=["C15","C17","C18"], kind_free_text="Gallina models of the merge iterators, symmetric diff and diff-based map operators + proofs; extracted to OCaml and compared with the real crate"),
            dict(name="coq-engine", path="coq/theories/Model/Engine.v", serves_properties=sorted(ENGINE), kind_free_text="faithful executable Gallina model of the engine (nodes, heaps, binds, observers, vars, Rc/Weak liveness), extracted to OCaml; Rust harness interprets the same history DSL on the real crate with state dumps from cfg-guarded hooks")],
   checks=checks,
-  not_applicable=[dict(property_id=p["id"], reason="not claimed yet: the check for this property is still being built in this round (planned as in DESIGN.md §5/§9); this is not a claim that the technique cannot apply") for p in props if p["id"] not in claimed],
+  not_applicable=[dict(property_id=p["id"], reason="not claimed: the per-key operators build one expert node per key from inside a map_cyclic closure; the engine model does not yet have map-valued nodes, expert nodes created inside closures or a transcription of these operator closures (DESIGN.md §11.8). The expert layer they rest on is modelled and checked under C14. The technique applies; the model is not built, so no check is registered rather than a weaker technique substituted") for p in props if p["id"] not in claimed],
   notes="see DESIGN.md; known_findings.jsonl lists recorded and repaired defects")
 json.dump(m, open(os.path.join(ROOT, "MANIFEST.json"), "w"), indent=1)
 print("claimed:", sorted(claimed))
